@@ -23,7 +23,7 @@ ASSUMPTIONS = [
     "whitespace is the set str.strip() removes (generated from the interpreter into Gen/Stdlib.v): NBSP at the edge of a text counts as whitespace",
     "entity substitution functions other than substitute_xml are passed to the model as their recorded graph on the strings of the case",
     "the tree handed to the model is read from .contents (C01 ties .contents to the element chain decode() walks)",
-    "indent settings are given through the base Formatter class and through HTMLFormatter / XMLFormatter (which forward them since fix 7ccac6b); the base Formatter class is",
+    "HTMLFormatter / XMLFormatter constructors are not used for indent settings (they drop the argument: C15's finding); the base Formatter class is",
 ]
 
 INDENTS = [None, -2, 0, 1, 3, 8, True, "", "\t", "  ", " \t", "\xa0", "--", 2.5, "OBJ"]
@@ -186,6 +186,51 @@ def oracle(ctx, case, el, f, pretty, plain, xml, parsed):
             ctx.fail(case, "pretty-printed output re-parses to a different tree than the plain output", ta, tb)
 
 
+CHECK = []
+
+
+def pretty_token_level(ctx, batch, case, fe, dumped, pretty_body, py_rep):
+    """The vocabulary of C14_reparse_modulo_whitespace against the implementation: the pretty rendering is the spelling
+    of Spec.PrettyTokens.pretty_tokens; where the theorem's hypotheses hold (evaluated by the model), html.parser's events
+    on prettify()'s output are what read_tokens makes of pretty_tokens, the re-parsed tree is norm (pretty_tree t), and it
+    equals the re-parse of the plain output with whitespace inside text disregarded."""
+    if not CHECK:
+        CHECK.append(G.startend_checks_closed())
+    chk = CHECK[0]
+    batch.add([14005, fe, True, dumped], lambda r, case=case, pretty_body=pretty_body:
+              (G_to_str(r) != pretty_body) and
+              ctx.disagree("prettify() ~ spelled Spec.PrettyTokens.pretty_tokens", case, pretty_body[:300], G_to_str(r)[:300]))
+    if not py_rep:
+        return
+    try:
+        back, log = G.parse_logged(pretty_body)
+    except G.ParserRejectedMarkup:
+        return
+    want_ev = G.canon_events(log)
+    flat = G.flat_impl(back)
+    state = {}
+
+    def hyp(r):
+        state["ok"] = (r == [1, 1, 1])
+        state["pre"] = (r[0] == 1 and r[1] == 1)
+        if state["pre"]:
+            ctx.count("pretty_token_level_cases")
+            if r[2] != 1:
+                ctx.disagree("pretty_ok_top t and representable_top t => representable_top (pretty_tree t)", case, True, r)
+    batch.add([14010, fe, True, chk, dumped], hyp)
+    batch.add([14006, fe, True, chk, dumped], lambda r: state.get("ok") and
+              (G.canon_events(G.dec_model_events(r)) != want_ev) and
+              ctx.disagree("html.parser's events on prettify() ~ read_tokens (pretty_tokens t)", case, want_ev[:14],
+                           G.canon_events(G.dec_model_events(r))[:14]))
+    batch.add([14007, fe, True, chk, dumped], lambda r: state.get("ok") and (G.dec_model_flat(r) != flat) and
+              ctx.disagree("re-parse of prettify() ~ spec_run (read_tokens (pretty_tokens t))", case, flat[:14], G.dec_model_flat(r)[:14]))
+    batch.add([14008, fe, True, dumped], lambda r: state.get("ok") and (G.dec_model_flat(r) != flat) and
+              ctx.disagree("re-parse of prettify() ~ norm (pretty_tree t)", case, flat[:14], G.dec_model_flat(r)[:14]))
+    batch.add([14009, fe, True, dumped], lambda r: state.get("ok") and (r[0] != r[1]) and
+              ctx.disagree("ws_equiv (norm (pretty_tree t)) (norm t) (conclusion of C14_reparse_modulo_whitespace, evaluated)", case,
+                           G.dec_model_flat(r[1])[:14], G.dec_model_flat(r[0])[:14]))
+
+
 def check_tree(ctx, batch, origin, root, xml, parsed, every_start=False):
     rng = ctx.rng
     inner = G.tags_of(root)[1:]
@@ -258,6 +303,10 @@ def check_tree(ctx, batch, origin, root, xml, parsed, every_start=False):
             else:
                 pretty_body, plain_body = pretty, plain
             oracle(ctx, case, el, f, pretty_body, plain_body, xml, parsed)
+            if ind == "registry" and name in ("minimal", "html"):
+                # (string-level conditions of representable content are the oracle's: names the tokenizer accepts, ...)
+                py_rep = (not any(t.name in G.HTML_VOID and t.contents for t in G.tags_of(el))) if parsed else (G.representable(el, xml) is None)
+                pretty_token_level(ctx, batch, case, fe, dumped, pretty_body, py_rep)
             # the statements' own vocabulary, against an independent walk of the implementation's tree
             items = expected_items(el, f)
             if items is not None:
